@@ -211,6 +211,14 @@ func genSeg(t *rapid.T) string {
 		return rapid.SampledFrom(lits).Draw(t, "segLit")
 	}
 
+	// an encoded percent sign in front of two hex digits: what is meant is the percent sign and the digits, not the octet
+	// the three would stand for if they were decoded once more ("%2561b" is the text "%61b", not "ab")
+	if rapid.IntRange(0, 7).Draw(t, "encodedPercent") == 0 {
+		vkit.S.Label("path.encoded_percent_sign_in_front_of_hex_digits")
+
+		return rapid.SampledFrom([]string{"%2561b", "a%2541", "%2541", "x%2525", "a%252Fb", "%2530", "a%252e"}).Draw(t, "segWithPercent")
+	}
+
 	n := rapid.IntRange(1, 4).Draw(t, "segLen")
 	b := make([]byte, n)
 
@@ -469,7 +477,16 @@ func paramHolds(p param, v string) bool {
 
 // insertSlash inserts an encoded slash into a generated position of the path.
 func insertSlash(t *rapid.T, path string, lower bool) string {
-	pos := rapid.IntRange(1, len(path)).Draw(t, "slashPos")
+	// (not into the middle of an escape sequence)
+	var positions []int
+
+	for p := 1; p <= len(path); p++ {
+		if path[p-1] != '%' && (p < 2 || path[p-2] != '%') {
+			positions = append(positions, p)
+		}
+	}
+
+	pos := rapid.SampledFrom(positions).Draw(t, "slashPos")
 	enc := "%2F"
 
 	if lower {
